@@ -88,7 +88,7 @@ func init() {
 			"no file-system mutation after Close returned, the reopened store reads exactly what the last transaction read; non-trivial: executions with overlapping transactions, distinct by observed values",
 		Assumptions: append([]string{"'returns within bounded time' is decided as 'every maximal execution completes' (the code has no spin loops; all waiting is blocking on modelled objects)",
 			"Close is invoked when no other call is in flight, with background work pending"}, txnAssumptions...),
-		QuickS: 75, ThoroughS: 1800,
+		QuickS: 100, ThoroughS: 1800,
 	}
 	Props["C12"] = &PropMeta{
 		Units: c12Units,
@@ -97,6 +97,6 @@ func init() {
 			"no panic, results admitted by the C05-C07 oracles; non-trivial: executions with overlapping transactions",
 		Assumptions: append([]string{"the race detector (TSan) is the per-execution monitor; channel edges are per channel (may hide, never invent, a race)",
 			"no partial-order pruning in this tier"}, txnAssumptions...),
-		QuickS: 120, ThoroughS: 2400,
+		QuickS: 150, ThoroughS: 2400,
 	}
 }
